@@ -225,6 +225,10 @@ pub struct PipeRun {
     pub pulled: usize,
     pub exited: usize,
     pub hang: bool,
+    /// the choice actually used at every scheduler step (index into the actor list)
+    pub used: Vec<usize>,
+    /// per step: the indices (into the actor list) of the actors whose move was not a stutter
+    pub alts: Vec<Vec<usize>>,
 }
 
 impl PipeRun {
@@ -250,6 +254,18 @@ fn code_of(p: Point) -> i64 {
 /// given by `choices`; the consumer consumes at most `dropk` items and then drops
 /// the iterator (`None`: consumes everything).
 pub fn run_pipe_controlled(xs: &[i64], w: usize, choices: &[usize], dropk: Option<usize>) -> PipeRun {
+    run_pipe_controlled_ext(xs, w, choices, dropk, false)
+}
+
+/// `first_progress`: once the choice list is exhausted pick the first actor whose move is not a
+/// stutter (used by the exhaustive schedule enumeration) instead of the step number.
+pub fn run_pipe_controlled_ext(
+    xs: &[i64],
+    w: usize,
+    choices: &[usize],
+    dropk: Option<usize>,
+    first_progress: bool,
+) -> PipeRun {
     let n = xs.len();
     let ctl = Ctl::new(false);
     ctl.install();
@@ -268,12 +284,23 @@ pub fn run_pipe_controlled(xs: &[i64], w: usize, choices: &[usize], dropk: Optio
     std::panic::set_hook(Box::new(|_| {}));
     let mut pipe = Some(pipe);
     let threads: Vec<usize> = (0..w).collect();
-    let mut run = PipeRun { events: vec![], out: vec![], ended: false, counts: vec![], pulled: 0, exited: 0, hang: false };
+    let mut run = PipeRun {
+        events: vec![],
+        out: vec![],
+        ended: false,
+        counts: vec![],
+        pulled: 0,
+        exited: 0,
+        hang: false,
+        used: vec![],
+        alts: vec![],
+    };
     if !ctl.wait_all(&threads) {
         run.hang = true;
     }
     let mut chan = 0usize; // items in the channel
     let mut dropped = false;
+    let mut turn = 0usize; // number of Advance moves seen (only used to recognise stutters)
     let fuel = choices.len() + (6 * n + w + 2) * (w + 3);
     let mut k = 0usize;
     while !run.hang {
@@ -328,8 +355,26 @@ pub fn run_pipe_controlled(xs: &[i64], w: usize, choices: &[usize], dropk: Optio
             }
             break;
         }
-        let c = if k < choices.len() { choices[k] } else { k };
-        let a = actors[c % actors.len()];
+        let progress: Vec<usize> = (0..actors.len())
+            .filter(|i| {
+                let a = actors[*i];
+                a >= w
+                    || match ctl.point_of(a) {
+                        Some(e) if matches!(e.point, Point::PipeComputed | Point::PipeSpin) => e.idx == turn,
+                        _ => true,
+                    }
+            })
+            .collect();
+        let c = if k < choices.len() {
+            choices[k] % actors.len()
+        } else if first_progress {
+            progress.first().copied().unwrap_or(0)
+        } else {
+            k % actors.len()
+        };
+        run.used.push(c);
+        run.alts.push(progress);
+        let a = actors[c];
         k += 1;
         if a < w {
             let before = ctl.point_of(a).map(|e| e.point);
@@ -340,11 +385,17 @@ pub fn run_pipe_controlled(xs: &[i64], w: usize, choices: &[usize], dropk: Optio
                 After::Exited => {
                     // exit at the end of the upstream (after BeforeTake) or after a failed send
                     let code = if before == Some(Point::PipeBeforeTake) { 2 } else { 9 };
+                    if code == 9 {
+                        turn += 1;
+                    }
                     run.events.push([a as i64, code, 0, pulled.load(Ordering::SeqCst) as i64]);
                 }
                 After::At(ev) => {
                     if ev.point == Point::PipeSentOk {
                         chan += 1;
+                    }
+                    if ev.point == Point::PipeBeforeTake {
+                        turn += 1;
                     }
                     let idx = if ev.point == Point::PipeBeforeTake { 0 } else { ev.idx as i64 };
                     run.events.push([a as i64, code_of(ev.point), idx, pulled.load(Ordering::SeqCst) as i64]);
@@ -407,7 +458,17 @@ pub fn run_pipe_free(xs: &[i64], w: usize, delays: &[u64]) -> PipeRun {
     let res = rx.recv_timeout(Duration::from_millis(10_000));
     let _ = std::panic::take_hook();
     std::panic::set_hook(Box::new(|_| {}));
-    let mut run = PipeRun { events: vec![], out: vec![], ended: false, counts: vec![], pulled: 0, exited: 0, hang: false };
+    let mut run = PipeRun {
+        events: vec![],
+        out: vec![],
+        ended: false,
+        counts: vec![],
+        pulled: 0,
+        exited: 0,
+        hang: false,
+        used: vec![],
+        alts: vec![],
+    };
     match res {
         Ok(out) => {
             run.out = out;
@@ -418,6 +479,67 @@ pub fn run_pipe_free(xs: &[i64], w: usize, delays: &[u64]) -> PipeRun {
     run.pulled = pulled.load(Ordering::SeqCst);
     run.counts = counts.iter().map(|c| c.load(Ordering::SeqCst)).collect();
     run
+}
+
+/// Every maximal schedule (modulo stutters) of the real Pipe threads for the given shape, found by
+/// stateless depth-first re-execution; each is returned as the explicit choice list that replays it.
+pub fn enumerate_pipe_schedules(xs: &[i64], w: usize, dropk: Option<usize>, limit: usize) -> Vec<Vec<usize>> {
+    enumerate_pipe_schedules_shard(xs, w, dropk, limit, 0, 1)
+}
+
+/// Shard `shard` of `shards`: the subtrees below the root schedule are dealt out round-robin
+/// (shard 0 also owns the root schedule); `limit` bounds the schedules of this shard.
+pub fn enumerate_pipe_schedules_shard(
+    xs: &[i64],
+    w: usize,
+    dropk: Option<usize>,
+    limit: usize,
+    shard: usize,
+    shards: usize,
+) -> Vec<Vec<usize>> {
+    let mut results = vec![];
+    let root = run_pipe_controlled_ext(xs, w, &[], dropk, true);
+    if root.hang {
+        return vec![root.used];
+    }
+    let mut stack: Vec<Vec<usize>> = vec![];
+    let mut idx = 0usize;
+    for k in 0..root.used.len() {
+        for alt in &root.alts[k] {
+            if *alt != root.used[k] {
+                if idx % shards == shard {
+                    let mut p = root.used[..k].to_vec();
+                    p.push(*alt);
+                    stack.push(p);
+                }
+                idx += 1;
+            }
+        }
+    }
+    if shard == 0 {
+        results.push(root.used);
+    }
+    while let Some(prefix) = stack.pop() {
+        let r = run_pipe_controlled_ext(xs, w, &prefix, dropk, true);
+        if r.hang {
+            results.push(r.used.clone());
+            break;
+        }
+        for k in prefix.len()..r.used.len() {
+            for alt in &r.alts[k] {
+                if *alt != r.used[k] {
+                    let mut p = r.used[..k].to_vec();
+                    p.push(*alt);
+                    stack.push(p);
+                }
+            }
+        }
+        results.push(r.used);
+        if results.len() >= limit {
+            break;
+        }
+    }
+    results
 }
 
 pub struct BufRun {
